@@ -101,6 +101,10 @@ func RunC04(tier string) int {
 	defer st.Cleanup()
 	e1.RestoreFaultPart(run, st, tierN(tier, 16, 80), tierN(tier, 16, 0), map[string]bool{"crash": true, "hang": true}, tier == "thorough")
 	e1.InterruptWidePart(run, st, tierN(tier, 24, 300))
+	// every failure pattern and failure mode (exit status, timeout, missing output, failing check,
+	// keep-going / fail-fast): the build returns and the process exits - judged here on hang and
+	// crash only, C05 judges what ran
+	e1.FailurePatternPart(run, st, tierN(tier, 24, 300), "C04-failures", map[string]bool{"hang": true, "crash": true, "slow": true})
 	run.Assume("deadlock is decided by the Go runtime (synctest: all goroutines in the bubble durably blocked), never by elapsed time")
 	return run.Finish()
 }
